@@ -24,13 +24,29 @@ let hist l proj =
   let c s = List.length (List.filter (fun d -> proj d = s) l) in
   Printf.sprintf "%d,%d,%d,%d" (c SevError) (c SevWarning) (c SevInfo) (c SevIgnore)
 
+let flag_of = function At "J" -> FJson | At "V" -> FV | At "VV" -> FVV | _ -> failwith "flag"
+let yv_of = function At "N" -> YNone | At "W" -> YWarning | At "I" -> YInfo | At "O" -> YOther | _ -> failwith "yaml verbose"
+
+(* a severity: the letter the check computed, or the string the linter printed (decoded by the model, with
+   the spellings regenerated from linter/errors.go) *)
+let sev_any = function
+  | Sq h -> (match sev_of_string (bytes_of_hex h) with Some s -> s | None -> failwith "unknown severity string")
+  | x -> sev_of x
+
 let handle (req : string) : string =
   match parse_sexps req with
-  | [Ls [At "cfg"; j; At v; Ls ovs]; Ls [At "in"; m; i; Ls ds]] ->
-      let rules = List.map (function Ls [k; l] -> (str_of k, str_of l) | _ -> failwith "override") ovs in
-      let c = { json = bool_of j; verbosity = nat_of_int (int_of_string v); overrides = overrides_of rules } in
-      let x = { parse_error_main = bool_of m; parse_error_included = bool_of i;
-                diags = List.map (function Ls [r; s] -> (str_of r, sev_of s) | _ -> failwith "diag") ds } in
+  | [cfgx; Ls [At "in"; m; i; Ls ds]] ->
+      let rules_of ovs = List.map (function Ls [k; l] -> (str_of k, str_of l) | _ -> failwith "override") ovs in
+      let c = match cfgx with
+        | Ls [At "cfg"; j; At v; Ls ovs] ->
+            { json = bool_of j; verbosity = nat_of_int (int_of_string v); overrides = overrides_of (rules_of ovs) }
+        | Ls [At "cfgof"; yv; Ls fl; Ls ovs] -> cfg_of (yv_of yv) (rules_of ovs) (List.map flag_of fl)
+        | _ -> failwith "cfg" in
+      let fds = List.map (function
+        | Ls [r; s] -> ([], (str_of r, sev_any s))
+        | Ls [r; s; f] -> (str_of f, (str_of r, sev_any s))
+        | _ -> failwith "diag") ds in
+      let x = { parse_error_main = bool_of m; parse_error_included = bool_of i; diags = List.map snd fds } in
       let o = run_lint c x in
       let summary = match o.summary with
         | None -> "none"
@@ -39,8 +55,15 @@ let handle (req : string) : string =
         | None -> "none", "none"
         | Some r -> Printf.sprintf "%d,%d,%d,%d" (int_of_nat r.res_errors) (int_of_nat r.res_warnings) (int_of_nat r.res_infos) (int_of_nat r.res_parse),
                     hist r.res_lint snd in
-      Printf.sprintf "exit=%d summary=%s doc=%s listed=%s shown=%s" (int_of_nat o.exit) summary doc listed
-        (hist o.terminal snd)
+      (* the -json document per file: file hex -> E,W,I,G of its entries, sorted by file *)
+      let files =
+        if o.doc = None || x.parse_error_main || x.parse_error_included then "none"
+        else
+          let m = doc_files c fds in
+          let items = List.map (fun (f, l) -> hex_of_ints (List.map (fun b -> int_of_n (b2n b)) f) ^ ":" ^ hist l snd) m in
+          if items = [] then "-" else String.concat ";" (List.sort compare items) in
+      Printf.sprintf "exit=%d summary=%s doc=%s listed=%s shown=%s files=%s stats=%d" (int_of_nat o.exit) summary doc listed
+        (hist o.terminal snd) files (int_of_nat (run_stats x))
   | _ -> "badreq"
 
 let () = serve handle
